@@ -19,9 +19,6 @@ private def digestRats (xs : List Rat) : String :=
 private def parseInts (s : String) : Array Int :=
   (s.splitOn ",").foldl (fun acc t => match t.toInt? with | some v => acc.push v | none => acc) #[]
 
-<<<<<<< HEAD
-private def ratGt (x y : Rat) : Bool := decide (y.abs < x.abs)
-=======
 /-- `q = ± 2^k` (numerator and denominator powers of two): dividing by it is exact in binary floating point -/
 private def isPow2Nat (n : Nat) : Bool := n != 0 && (n &&& (n - 1)) == 0
 private def dyadicUnit (q : Rat) : Bool := isPow2Nat q.num.natAbs && isPow2Nat q.den
@@ -31,7 +28,6 @@ private def exactInfo (divs : List Rat) (xs : List Rat) : String :=
   let dy := divs.all dyadicUnit
   let xb := xs.foldl (fun m q => max m (max (bitLen q.num.natAbs) (bitLen q.den))) 0
   s!" DY={if dy then 1 else 0} XBITS={xb}"
->>>>>>> wip/c10
 
 private def ratGt (x y : Rat) : Bool := decide (y.abs < x.abs)
 
